@@ -192,4 +192,98 @@ theorem xyz_repaired_safety_complete (N : Nat) (hN : 1 ≤ N) (frames : List Xyz
 example : (1 ≤ 2) ∧ (∀ f ∈ witness, f.WF 2) ∧ [37, 42, 88].Pairwise (· ≤ ·) := by
   refine ⟨by decide, witness_wf, by decide⟩
 
+/-! ## the LAMMPS reader
+
+Proved at full strength: (i) the two sentinels at character level — the terminating newline never
+changes the tokens of a line, and a torn atom line (cut anywhere before the end of its trailing id)
+is never accepted, for every line, every layout of blanks and every cut; (ii) safety and completeness
+of the poll-by-poll specification `lmpStages` (which states the one-poll lag honestly) for all frame
+lengths and all non-decreasing cut sequences.
+**Missing link (hence `_partial`)**: the theorem
+`pollAll lmpReader (enc T) cuts 0 = .ok (lmpStages lens (decode T) cuts 0 false)` for every well-formed
+LAMMPS trajectory — the frame-by-frame induction over the nine header lines (the analogue of
+`xyz_pollAll`) was not completed.  It is checked on every run by the tie (driver ops `lmp` vs `lspec`,
+every single cut and every pair of cuts of every generated trajectory) and below on a concrete file. -/
+
+/-- the terminating newline does not change what `line.split()` returns -/
+theorem lmp_newline_irrelevant (body : List Char) : split (body ++ ['\n']) = split body :=
+  split_append_nl body
+
+/-- **trailing-id sentinel**: for an atom line `id type x y z vx vy vz id` (nine tokens, first = last, no
+    blank after the trailing id, any blanks elsewhere) every strict prefix is rejected by
+    `len(spl) != 9 or spl[0] != spl[-1]` — no torn atom line is ever accepted, at any byte cut. -/
+theorem lmp_torn_atom_line_rejected (st : LSt) (body init : List Char) (c : Char)
+    (hb : body = init ++ [c]) (hc : isBlank c = false) (h9 : (split body).length = 9)
+    (hid : (split body).head? = (split body).getLast?) (n : Nat) (hn : n < body.length)
+    (hline : 9 ≤ st.i % st.block) (tell' : Nat) :
+    lBody st ((body ++ ['\n']).take n) (split ((body ++ ['\n']).take n)) tell' = .ret (st.traj, st.pos) :=
+  lBody_torn_atom st body init c hb hc h9 hid n hn hline tell'
+
+example : (split ['1', '2', ' ', '1', ' ', '1', ' ', '2', ' ', '3', ' ', '4', ' ', '5', ' ', '6', ' ', '1', '2']).length = 9
+    ∧ (split ['1', '2', ' ', '1', ' ', '1', ' ', '2', ' ', '3', ' ', '4', ' ', '5', ' ', '6', ' ', '1', '2']).head? = (split ['1', '2', ' ', '1', ' ', '1', ' ', '2', ' ', '3', ' ', '4', ' ', '5', ' ', '6', ' ', '1', '2']).getLast?
+    ∧ isBlank '2' = false := by decide
+
+/-- **SAFETY of the LAMMPS stage specification (with the lag stated)**: for non-decreasing cuts, after
+    every poll the frames returned so far are a prefix of the trajectory (each once, in order), and all
+    their bytes except possibly the final newline of the last one were visible at that poll. -/
+theorem lmpStages_safety_partial {F : Type} (lens : List Nat) (dec : List F) (cuts : List Nat)
+    (hs : cuts.Pairwise (· ≤ ·)) (k : Nat) (hk : k < cuts.length) :
+    ∃ d, ((lmpStages lens dec cuts 0 false).take (k + 1)).flatten = dec.take d ∧ d ≤ lens.length
+      ∧ sumLens (lens.take d) ≤ cuts[k] + 1 := by
+  have hsplit : cuts = cuts.take (k + 1) ++ cuts.drop (k + 1) := (List.take_append_drop _ _).symm
+  have hsp : (cuts.take (k + 1)).Pairwise (· ≤ ·) := hs.sublist (List.take_sublist _ _)
+  have hv : LValid lens (cuts.take (k + 1)) 0 false := ⟨Nat.zero_le _, by simp⟩
+  obtain ⟨h1, h2, h3⟩ := lmp_run lens dec (cuts.take (k + 1)) 0 false hsp hv
+  refine ⟨_, ?_, h2, ?_⟩
+  · rw [hsplit, lmpStages_append]
+    have hl : (lmpStages lens dec (cuts.take (k + 1)) 0 false).length = k + 1 := by
+      rw [lmpStages_length]; simp; omega
+    rw [List.take_append_of_le_length (by omega), List.take_of_length_le (by omega)]
+    simpa using h1
+  · apply h3
+    rw [List.take_succ_eq_append_getElem hk, List.getLast?_concat]
+    rfl
+
+/-- **COMPLETENESS of the LAMMPS stage specification**: after two polls that see the complete file (the
+    engines poll twice more after the MD program stopped) every frame has been returned — one poll may be
+    spent on a newline that arrived late. -/
+theorem lmpStages_complete_partial {F : Type} (lens : List Nat) (dec : List F)
+    (hlen : dec.length = lens.length) (pre : List Nat) (T : Nat)
+    (hs : (pre ++ [T, T]).Pairwise (· ≤ ·)) (hT : sumLens lens ≤ T) :
+    (lmpStages lens dec (pre ++ [T, T]) 0 false).flatten = dec := by
+  have hv : LValid lens (pre ++ [T, T]) 0 false := ⟨Nat.zero_le _, by simp⟩
+  obtain ⟨h1, _, _⟩ := lmp_run lens dec (pre ++ [T, T]) 0 false hs hv
+  have hsp : pre.Pairwise (· ≤ ·) := hs.sublist (List.sublist_append_left _ _)
+  obtain ⟨_, h2, _⟩ := lmp_run lens dec pre 0 false hsp ⟨Nat.zero_le _, by simp⟩
+  rw [lmpFinal_append, lmp_final_polls lens dec hlen T hT _ _ h2, ← hlen, List.take_length] at h1
+  simpa using h1
+
+example : [3, 44, 44].Pairwise (· ≤ ·) ∧ sumLens [44] ≤ 44 := by decide
+
+instance : DecidableEq LFrame := inferInstanceAs (DecidableEq (List (List (List Char)) × List (List (List Char))))
+
+/-- a concrete LAMMPS file (2 frames of 1 atom, 42 + 52 bytes; header texts shortened — the reader
+    never looks at them) -/
+def wLmp : List Char :=
+  ['T', '\n', '0', '\n', 'N', '\n', '1', '\n', 'B', '\n', '0', ' ', '1', '\n', '0', ' ', '1', '\n', '0', ' ', '1', '\n', 'A', '\n', '1', ' ', '1', ' ', '1', ' ', '2', ' ', '3', ' ', '4', ' ', '5', ' ', '6', ' ', '1', '\n'] ++
+  ['T', '\n', '5', '\n', 'N', '\n', '1', '\n', 'B', '\n', '0', ' ', '2', ' ', '0', '\n', '0', ' ', '2', ' ', '0', '\n', '0', ' ', '2', ' ', '0', '\n', 'A', '\n', '1', ' ', '1', ' ', '7', ' ', '8', ' ', '9', ' ', '-', '1', ' ', '.', '5', ' ', '6', 'e', '1', ' ', '1', '\n']
+
+def wLmpDecoded : List LFrame :=
+  [([[['1'], ['2'], ['3'], ['4'], ['5'], ['6']]],
+    [[['0'], ['1'], ['0']], [['0'], ['1'], ['0']], [['0'], ['1'], ['0']]]),
+   ([[['7'], ['8'], ['9'], ['-', '1'], ['.', '5'], ['6', 'e', '1']]],
+    [[['0'], ['2'], ['0']], [['0'], ['2'], ['0']], [['0'], ['2'], ['0']]])]
+
+/-- the missing link on the concrete file, including the late-newline lag (cut 41 = everything but the
+    final newline of frame 1: the frame is returned; the next poll only skips the newline; the poll after
+    that returns frame 2) and cuts inside every kind of line -/
+theorem lmp_concrete_instance :
+    pollAll lmpReader wLmp [1, 7, 12, 20, 30, 40, 41, 94, 94, 94] 0
+      = .ok (lmpStages [42, 52] wLmpDecoded [1, 7, 12, 20, 30, 40, 41, 94, 94, 94] 0 false)
+    ∧ lmpStages [42, 52] wLmpDecoded [1, 7, 12, 20, 30, 40, 41, 94, 94, 94] 0 false
+      = [[], [], [], [], [], [], [wLmpDecoded[0]], [], [wLmpDecoded[1]], []]
+    ∧ pollAll lmpReader wLmp [42, 60, 93, 94, 94] 0
+      = .ok (lmpStages [42, 52] wLmpDecoded [42, 60, 93, 94, 94] 0 false) := by
+  refine ⟨by decide, by decide, by decide⟩
+
 end Infretis.C13
